@@ -87,9 +87,14 @@ func AsString(v Value) (String, bool) {
 }
 
 // Hash computes a hash for a String.
+// stringHashSalt keeps String hashes apart from those of other kinds with the same content.
+const stringHashSalt = 0x53747231
+
 func (s String) Hash(seed uintptr) uintptr {
 	// TODO: implement a []rune-friendly hash function.
-	return hash.String(string(s.s), seed)
+	// The offset is part of the value, and a string must not hash like the byte array with
+	// the same text: sets trust equal member hashes.
+	return hash.String(string(s.s), hash.Int(s.offset, seed^stringHashSalt))
 }
 
 // Equal tests two Sets for equality. Any other type returns false.
